@@ -978,7 +978,9 @@ where
                 // break and wait for more read
                 Ok(None) => break,
 
-                Err(ParseError::Io(err)) => {
+                // malformed chunked framing is reported by the payload decoder as an
+                // `InvalidInput` I/O error; it is a bad request (handled below), not a lost peer
+                Err(ParseError::Io(err)) if err.kind() != io::ErrorKind::InvalidInput => {
                     trace!("I/O error: {}", &err);
                     self.as_mut().client_disconnected();
                     this = self.as_mut().project();
